@@ -4,12 +4,10 @@ C02 for the multi-task VRP environment (all 16 variants, one statement over the 
     batch-mates run and no all-False mask row is ever produced;
 (2) `done` is absorbing;
 (3) on a well-formed instance (`wf`: demands non-negative and at most one kind per customer, every
-    customer servable on its own by a fresh vehicle with respect to the mask's own — strict — deadline
-    comparisons, its capacity and the distance limit) every mask-confined episode is finished after at
-    most `2n+1` steps.
+    customer servable on its own by a fresh vehicle — deadlines, capacity and distance limit may be met
+    with equality) every mask-confined episode is finished after at most `2n+1` steps.
 `wf` is what the generator guarantees (C18) and it is evaluated by the harness on every instance used.
-Without it the environment does not dead-end but idles at the depot forever (e.g. a customer whose direct
-arrival time EQUALS its deadline is never offered, see the C05 finding).
+Without it the environment does not dead-end but idles at the depot forever (an unservable customer).
 -/
 import Rl4co.Proofs.MtvrpWf
 
@@ -154,45 +152,16 @@ theorem progress (i : Inst) (hwf : wf i = true) {as : List Nat} {s : State}
   have := steps_le i hwf hsn
   simpa using this
 
-/-! ### what happens without the strictness in `wf` (consequence of the C05 finding)
-
-By the problem statement a customer whose direct arrival time EQUALS its deadline is servable, so an instance
-is already "well-formed" with `≤` in place of `<` in `servable`.  For such instances the step bound fails:
-the customer is never offered and the episode idles at the depot forever (the mask is never empty, `done` is
-never reached). -/
-
-/-- `servable` / `wf` with the deadline comparisons of the problem statement (`≤`) -/
-def servableLe (i : Inst) (j : Nat) : Bool :=
-  cmpInf .le (i.T 0 j) (i.late j)
-  && cmpInf .le (if i.openR then 0 else max (i.T 0 j) (i.early j) + i.service j + i.T j 0) (i.late 0)
-  && ((decide (0 < i.dL j) && decide (i.dL j ≤ i.cap)) || (decide (0 < i.dB j) && decide (i.dB j ≤ i.cap)))
-  && cmpInf .le (i.D 0 j + (if i.openR then 0 else i.D j 0)) i.limit
-def wfLe (i : Inst) : Bool :=
-  decide (0 ≤ i.cap) && demandsOk i && (List.range i.n).all (fun k => servableLe i (k + 1))
-
-def steps_le_statement : Prop :=
-  ∀ (i : Inst) (as : List Nat) (s : State), wfLe i = true → RunND env i (env.reset i) as s →
-    as.length ≤ 2 * i.n + 1
-
-/-- one customer at travel time 256 with deadline 256 -/
+/-- one customer whose direct arrival time EQUALS its deadline (travel time 256, deadline 256): well-formed,
+and the episode `[1, 0]` is offered by the mask and finishes (before upstream commit 6a508fb the customer was
+never offered and the environment idled at the depot forever) -/
 def idleInst : Inst :=
   { n := 1, cap := 4, dL := fun j => if j = 0 then 0 else 1, dB := fun _ => 0, openR := false, limit := none,
     early := fun _ => 0, late := fun j => some (if j = 0 then 2048 else 256), service := fun _ => 0,
     D := fun a b => if a = b then 0 else 256, T := fun a b => if a = b then 0 else 256 }
-
-theorem steps_le_counterexample : ¬ steps_le_statement := by
-  intro h
-  have := h idleInst [0, 0, 0, 0] (exec env idleInst (env.reset idleInst) [0, 0, 0, 0]) (by decide)
-    (by
-      refine RunND.cons (by decide) (by decide) (by decide) ?_
-      refine RunND.cons (by decide) (by decide) (by decide) ?_
-      refine RunND.cons (by decide) (by decide) (by decide) ?_
-      refine RunND.cons (by decide) (by decide) (by decide) ?_
-      exact RunND.nil _)
-  revert this; decide
-
-/-- the instance is solvable: `[1, 0]` is feasible by the problem definition -/
-example : Spec.Mtvrp.feasible idleInst [1, 0] = true := by decide
+example : wf idleInst = true := by decide
+example : ∃ s, Run env idleInst (env.reset idleInst) [1, 0] s ∧ env.done idleInst s = true :=
+  ⟨_, (run_iff_admitted _ _ _ _ _).2 ⟨by decide, rfl⟩, by decide⟩
 
 /-- Non-vacuity of `wf` and of the bound: the three-step episode `[1, 2, 0]` on `exInst`
 (closed routes, linehaul + backhaul, distance limit, time windows). -/
